@@ -26,6 +26,10 @@ def ob_pixels(tier):
     # every image of a multi-scan product holds its own pixels, also when the default options find an index written earlier
     runs.append(api.assembly("1.1", pols=("HH", "HV"), scans=("F1", "F2", "F3"), use_cache_cycle=True, pid="WWDR1.1__D"))
     runs.append(api.assembly("1.5", pols=("HH", "HV"), use_cache_cycle=True))
+    # a product on a non-local filesystem whose index sits next to the image, default options; a replaced image with a stale index
+    r = api.cache_transparency(protocol="memory", location="adjacent", level="1.5")
+    runs.append(dict(r, detail=r.get("diffs") or r.get("error")))
+    runs.append(api.stale_cache("1.5"))
     # elements fetched through list / point-wise selections are the same samples
     runs.append(api.indexing_kinds("1.5", rpc=2))
     runs.append(api.indexing_kinds("1.1", rpc=3, n=7, m=3))
@@ -36,7 +40,9 @@ def ob_rpc(tier):
     from vlib import api
 
     pairs = [(1, 7), (2, 5), (5, 6), (3, 1000000)] if tier == "quick" else [(1, 2), (1, 5), (2, 3), (4, 5), (5, 6), (6, 1024), (3, 10**9), (1, 10**6)]
-    return _res([api.rpc_pair(level, a, b) for level in ("1.5", "1.1") for a, b in pairs], "C06.e2e")
+    runs = [api.rpc_pair(level, a, b) for level in ("1.5", "1.1") for a, b in pairs]
+    runs += [api.rpc_pair(level, a, b, cached=True) for level in ("1.5", "1.1") for a, b in pairs[:3]]  # the same through an index cache
+    return _res(runs, "C06.e2e")
 
 
 def ob_io(tier):
